@@ -388,8 +388,23 @@ def check_rows(ctx, rows, prof, origin, stats):
             ctx.violation("tie:model-differs", "the loader's behaviour on this tree differs from Model/Modules.v "
                           "(either the loader changed or the model is wrong)",
                           {"tree": r[2], "implementation": r[3], "profile": prof})
+    # the theorem guards, evaluated by Coq on the very same trees: a failure may be attributed to a
+    # key / cycle / shared-name root cause only where the corresponding guard is false
+    gterms = [f"let q := ({r[0]}) in (keys_ok (q_fs q), unique_defs (q_fs q))" for r in rows]
+    gres, gerr = [], None
+    for k in range(0, len(gterms), 400):
+        part, e = vlib.coq_eval_terms("c19g", IMPORTS.replace("Model.ModulesObs", "Model.ModulesObs Model.ModulesSpec"), gterms[k:k + 400])
+        gres += part
+        gerr = gerr or e
+    if gerr or any(g is None for g in gres):
+        ctx.broken.append("guards C19: keys_ok/unique_defs could not be evaluated in Coq")
+        ctx.log((gerr or "")[-2000:])
+        gres = [None] * len(rows)
     per_sig = collections.Counter()
-    for r in rows:
+    for r, gr in zip(rows, gres):
+        keys_ok = gr is not None and "(true," in gr.replace(" ", "")
+        uniq_ok = gr is not None and ",true)" in gr.replace(" ", "")
+        stats["guard_keys_ok"] += 1 if keys_ok else 0
         t = parse_tree(r[2])
         code, trace, probes, detail = parse_raw(r[3])
         probes = probes[:len(t["probes"])] if t["probes"] else []
@@ -408,6 +423,9 @@ def check_rows(ctx, rows, prof, origin, stats):
         if a["cycle"]:
             stats["cyclic"] += 1
         for sig, what in fs:
+            if gr is not None and ((keys_ok and sig.startswith(("key:", "cycle:"))) or (uniq_ok and sig.startswith("ns:same-global-name"))):
+                # C19_init_once / C19_cycle_reported cover this tree: the attribution is wrong
+                sig = "guarded-tree:" + sig
             per_sig[sig] += 1
             stats["oracle_failures"][sig] += 1
             if per_sig[sig] <= 2:
@@ -429,10 +447,10 @@ def run(ctx):
         ctx.broken.append("coq: model files for the C19 tie do not build")
         ctx.log(out[-2000:])
         return
-    n_random = 700 if ctx.tier == "quick" else 12000
+    n_random = 700 if ctx.tier == "quick" else 6000
     profiles = ["dev"] if ctx.tier == "quick" else ["dev", "release"]
     stats = {"runs": 0, "codes": collections.Counter(), "labels": collections.Counter(), "distinct": set(),
-             "oracle_failures": collections.Counter(), "key_class": 0, "ns_class": 0, "nested": 0, "cyclic": 0}
+             "oracle_failures": collections.Counter(), "guard_keys_ok": 0, "key_class": 0, "ns_class": 0, "nested": 0, "cyclic": 0}
     corpus = sorted(glob.glob(os.path.join(vlib.VERIF, "corpus", "C19", "*.txt")))
     if getattr(ctx, "replay_file", None):
         import json
@@ -466,7 +484,7 @@ def run(ctx):
     ctx.cov["input_distribution"] = {
         "trees": sum(stats["codes"].values()), "outcomes": dict(stats["codes"]), "families": dict(stats["labels"]),
         "trees_with_nested_directories": stats["nested"], "trees_with_reachable_cycle": stats["cyclic"],
-        "trees_in_key_collision_class": stats["key_class"], "trees_in_shared_global_name_class": stats["ns_class"],
+        "trees_in_key_collision_class": stats["key_class"], "trees_satisfying_keys_ok_guard": stats["guard_keys_ok"], "trees_in_shared_global_name_class": stats["ns_class"],
         "random_flavours": "f0 flat forward-only 40%, f1 flat with back edges 15%, f2 nested directories with repeated file names "
                            "and mod.aelys 20%, f3 shared definition names 10%, f4 malformed (missing modules, private/undefined "
                            "symbols, `needs mod.symbol`) 15%; the nested / shared-name / path-symbol flavours fall into the known "
@@ -476,7 +494,7 @@ def run(ctx):
     ctx.cov["refuted_lemmas"] = ["C19_key_collision_refuted", "C19_one_file_two_keys_refuted",
                                  "C19_flat_namespace_collision_refuted", "C19_cycle_reported_refuted",
                                  "C19_private_leak_refuted", "C19_nested_second_symbol_refuted",
-                                 "C19_qualifier_dropped_refuted"]
+                                 "C19_qualifier_dropped_refuted", "C19_shared_qualifier_refuted"]
     ctx.cov["rule"] = ("structured families (chains 1-6, diamonds 2-4, cycles of length 1-6 behind tails 0-2, nested directories with "
                        "a repeated file name, one file under two dotted paths, mod.aelys packages, same global name in two modules, "
                        "`needs mod.symbol` incl. private names and cycles, two selected symbols, missing module, private symbol, entry "
